@@ -224,12 +224,20 @@ func run(c *mon.Case) {
 		// path 1: constants through the product's folder
 		var folded expr.Expr
 		var built expr.Expr
+		snap := fmtConsts(consts)
+		mid := ""
 		p, val, stack := mon.Try(func() {
 			built = g.build(consts, expr.Width(w), aux)
-			folded = exprtransform.ConstFold(built)
+			exprtransform.ConstFold(built)
+			mid = fmtConsts(consts)
+			folded = exprtransform.ConstFold(built) // the second fold of the same tree is the one judged
 		})
 		if p {
 			c.Fail("C11.panic", feat, "%s panicked: %v\n%s", desc, val, stack)
+			continue
+		}
+		if now := fmtConsts(consts); mid != snap || now != snap {
+			c.Fail("C11.input-mutated", feat, "%s: building/folding changed an operand constant: %x -> %x -> %x (width byte, then LE bytes, per operand)", desc, snap, mid, now)
 			continue
 		}
 		fc, ok := folded.(expr.Const)
@@ -286,6 +294,15 @@ func clip(s string) string {
 		return s[:600] + "..."
 	}
 	return s
+}
+
+func fmtConsts(cs []expr.Expr) string {
+	var b []byte
+	for _, c := range cs {
+		b = append(b, byte(c.Width()))
+		b = append(b, c.(expr.Const).Bytes()...)
+	}
+	return string(b)
 }
 
 func main() {
